@@ -21,7 +21,10 @@ use std::fs::File;
 use std::io::ErrorKind::WouldBlock;
 use std::io::{Cursor, Write};
 use std::iter::Iterator;
+#[cfg(not(roughenough_verif))]
 use std::net::{SocketAddr, ToSocketAddrs, UdpSocket};
+#[cfg(roughenough_verif)]
+use verif_std::net::{SocketAddr, ToSocketAddrs, UdpSocket};
 use std::time;
 
 use byteorder::{LittleEndian, ReadBytesExt};
